@@ -36,7 +36,7 @@ class C25(Check):
     COMPONENTS_STUB = ["no scheduler: operations are issued directly in the order a workflow would"]
     EXPECTED_PROBES = ["rollbacks_invalidating", "rederivations", "merges", "extended_histories",
                        "workflow_histories", "reexecuted_because_state_was_rolled_back"]
-    QUICK_SECONDS = 25.0
+    QUICK_SECONDS = 35.0
 
     def setup(self) -> None:
         logging.disable(logging.CRITICAL)
